@@ -40,10 +40,1101 @@ Proof.
   - destruct (IHl1 l2 y ltac:(lia) Hin) as [x Hx]. eauto.
 Qed.
 
-Lemma Valid_length m s : Valid m s -> Z.of_nat (length s) <= m + 1.
+Lemma Forall2_len {X Y} (R : X -> Y -> Prop) l1 l2 : Forall2 R l1 l2 -> length l1 = length l2.
+Proof. induction 1; cbn [length]; congruence. Qed.
+
+Lemma NoDup_app_disj {X} (l1 l2 : list X) :
+  NoDup l1 -> NoDup l2 -> (forall x, In x l1 -> ~ In x l2) -> NoDup (l1 ++ l2).
 Proof.
-  unfold Valid. destruct s as [|x t]; cbn [length].
-  - intros _. (* m may be anything: the empty combination *)
-    destruct (Z_le_gt_dec 0 (m + 1)); [lia|].
-    (* when m + 1 < 0 the statement is false; Valid m [] is True: restrict *)
-Abort.
+  induction l1 as [|a l1 IH]; intros H1 H2 Hd; cbn [app]; [assumption|].
+  inversion H1; subst. constructor.
+  - rewrite in_app_iff. intros [Hi|Hi]; [contradiction|]. apply (Hd a); [left; reflexivity|assumption].
+  - apply IH; auto. intros x Hx. apply Hd. right. assumption.
+Qed.
+
+Lemma app_eq_len {X} : forall (l1 r1 l2 r2 : list X),
+  l1 ++ l2 = r1 ++ r2 -> length l1 = length r1 -> l1 = r1 /\ l2 = r2.
+Proof.
+  induction l1; intros [|b r1] l2 r2 H Hl; cbn in *; try lia.
+  - auto.
+  - inversion H; subst. destruct (IHl1 r1 l2 r2 H2 ltac:(lia)). subst. auto.
+Qed.
+
+Lemma Valid_length m s : 0 <= m + 1 -> Valid m s -> Z.of_nat (length s) <= m + 1.
+Proof.
+  unfold Valid. intros Hm H. destruct s as [|x t]; cbn [length].
+  - lia.
+  - pose proof (Inc_len _ _ _ _ H). cbn [Inc] in H. lia.
+Qed.
+
+(** * 1. The partition of the combination IDs *)
+
+(** [chain a b l]: the intervals of [l] are non-empty, each starts where the
+    previous one ended, the first starts at [a], the last ends at [b]. *)
+Fixpoint chain (a b : Z) (l : list (Z * Z)) : Prop :=
+  match l with
+  | [] => a = b
+  | se :: t => fst se = a /\ fst se < snd se /\ chain (snd se) b t
+  end.
+
+Lemma chain_le : forall l a b, chain a b l -> a <= b.
+Proof.
+  induction l as [|[s e] t IH]; cbn [chain fst snd]; intros a b H.
+  - lia.
+  - destruct H as (-> & Hlt & Hc). apply IH in Hc. lia.
+Qed.
+
+Lemma chain_bounds : forall l a b, chain a b l ->
+  Forall (fun se => a <= fst se /\ fst se < snd se /\ snd se <= b) l.
+Proof.
+  induction l as [|[s e] t IH]; cbn [chain fst snd]; intros a b H.
+  - constructor.
+  - destruct H as (-> & Hlt & Hc). constructor.
+    + cbn [fst snd]. apply chain_le in Hc. lia.
+    + eapply Forall_impl; [|apply IH, Hc]. cbn. intros se Hse. lia.
+Qed.
+
+Lemma chain_cover : forall l a b id, chain a b l -> a <= id < b ->
+  exists se, In se l /\ fst se <= id < snd se.
+Proof.
+  induction l as [|[s e] t IH]; cbn [chain fst snd]; intros a b id H Hid.
+  - lia.
+  - destruct H as (-> & Hlt & Hc).
+    destruct (Z_lt_ge_dec id e).
+    + exists (a, e). cbn. split; [auto|lia].
+    + destruct (IH e b id Hc ltac:(lia)) as (se & Hin & Hse). exists se. cbn [In]. auto.
+Qed.
+
+(** pairwise disjoint and in order: a later interval starts at or after the end of an earlier one *)
+Lemma chain_ordered : forall l a b, chain a b l ->
+  ForallOrdPairs (fun x y : Z * Z => snd x <= fst y) l.
+Proof.
+  induction l as [|[s e] t IH]; cbn [chain fst snd]; intros a b H.
+  - constructor.
+  - destruct H as (-> & Hlt & Hc). constructor.
+    + eapply Forall_impl; [|apply (chain_bounds _ _ _ Hc)]. cbn. intros; lia.
+    + eapply IH, Hc.
+Qed.
+
+Lemma chain_unique : forall l a b id se1 se2, chain a b l ->
+  In se1 l -> In se2 l -> fst se1 <= id < snd se1 -> fst se2 <= id < snd se2 -> se1 = se2.
+Proof.
+  induction l as [|[s e] t IH]; cbn [chain fst snd In]; intros a b id se1 se2 H H1 H2 R1 R2.
+  - contradiction.
+  - destruct H as (-> & Hlt & Hc).
+    pose proof (chain_bounds _ _ _ Hc) as Hb. rewrite Forall_forall in Hb.
+    destruct H1 as [<-|H1], H2 as [<-|H2]; cbn [fst snd] in *.
+    + reflexivity.
+    + apply Hb in H2. lia.
+    + apply Hb in H1. lia.
+    + eapply IH; eauto.
+Qed.
+
+Lemma pieces_length amount cf : length (pieces amount cf) = Z.to_nat cf.
+Proof. unfold pieces. rewrite map_length, seqZ_length. reflexivity. Qed.
+
+Lemma pieces_chain_from amount cf : 1 <= cf <= amount ->
+  forall n i, 0 <= i -> i + Z.of_nat (S n) = cf ->
+  chain (i * (amount / cf)) amount (map (piece amount cf) (seqZ i (S n))).
+Proof.
+  intros Hcf.
+  assert (Hp : 1 <= amount / cf) by (apply Z.div_le_lower_bound; lia).
+  assert (Hm : cf * (amount / cf) <= amount) by (apply Z.mul_div_le; lia).
+  induction n; intros i Hi Hn.
+  - cbn [seqZ map chain]. unfold piece. cbn [fst snd].
+    replace (i =? cf - 1) with true by lia. repeat split; nia.
+  - change (chain (i * (amount / cf)) amount (map (piece amount cf) (seqZ i (S (S n))))) with
+      (fst (piece amount cf i) = i * (amount / cf) /\
+       fst (piece amount cf i) < snd (piece amount cf i) /\
+       chain (snd (piece amount cf i)) amount (map (piece amount cf) (seqZ (i + 1) (S n)))).
+    assert (E : piece amount cf i = (i * (amount / cf), (i + 1) * (amount / cf))).
+    { unfold piece. replace (i =? cf - 1) with false by lia. reflexivity. }
+    rewrite E. cbn [fst snd]. split; [nia|]. split; [nia|].
+    apply (IHn (i + 1)); lia.
+Qed.
+
+Lemma pieces_chain amount cf : 1 <= cf <= amount -> chain 0 amount (pieces amount cf).
+Proof.
+  intro H. unfold pieces.
+  destruct (Z.to_nat cf) as [|n] eqn:E; [lia|].
+  apply (pieces_chain_from amount cf H n 0); lia.
+Qed.
+
+Lemma cfactor_bounds gomax maxconc amount : 1 <= gomax -> 0 <= amount ->
+  1 <= cfactor gomax maxconc amount <= Z.max 1 amount.
+Proof.
+  intros Hg Ha. unfold cfactor, MIN_ITER.
+  assert (amount / 10000 <= amount) by (apply Z.div_le_upper_bound; lia).
+  assert (0 <= amount / 10000) by (apply Z.div_pos; lia).
+  destruct (amount / 10000 <? gomax) eqn:E1; destruct (amount / 10000 <? 1) eqn:E2;
+    destruct ((0 <? maxconc) && (maxconc <? _)) eqn:E3; lia.
+Qed.
+
+(** * 2. One worker, uninterrupted *)
+
+Lemma collect_Forall2 {X Y} (f : X -> outcome Y) (R : X -> Y -> Prop) : forall l,
+  (forall x, In x l -> exists y, f x = Ok y /\ R x y) ->
+  exists ys, collect (map f l) = Ok ys /\ Forall2 R l ys.
+Proof.
+  induction l as [|x t IH]; intro H; cbn [map collect].
+  - exists []. split; [reflexivity|constructor].
+  - destruct (H x (or_introl eq_refl)) as (y & Hy & Ry).
+    destruct IH as (ys & Hys & Rys). { intros x' Hx'. apply H. right. exact Hx'. }
+    exists (y :: ys). rewrite Hy, Hys. cbn [bind]. split; [reflexivity|constructor; assumption].
+Qed.
+
+Lemma collect_Ok_inv {X} : forall (l : list (outcome X)) ys,
+  collect l = Ok ys -> l = map Ok ys.
+Proof.
+  induction l as [|o t IH]; intros ys H; cbn [collect] in H.
+  - inversion H. reflexivity.
+  - destruct o as [x| | |]; cbn [bind] in H; try discriminate.
+    destruct (collect t) as [r| | |] eqn:E; cbn [bind] in H; try discriminate.
+    inversion H; subst. cbn [map]. f_equal. apply IH. reflexivity.
+Qed.
+
+Section Generic.
+  Context {A : Type}.
+  Variable flip : list Z -> list A -> outcome (list A).
+  Variable P : list A -> bool.
+  Variable data : list A.
+  Variable total : Z.
+  Let m := total - 1.
+
+  (** The only facts needed about applyBitFlipsFunc: on the positions of a
+      valid combination it does not panic and is its own inverse. Discharged
+      for [flip_bools] / [flip_bytes] in section 6. *)
+  Hypothesis Hflip : forall s, Valid m s -> exists v, flip s data = Ok v /\ flip s v = Ok data.
+
+  (** candidate [s] satisfies the predicate *)
+  Definition hitb (s : cand) : bool :=
+    match flip s data with Ok v => P v | _ => false end.
+
+  Lemma try1_spec s : Valid m s ->
+    exists v, flip s data = Ok v /\
+              try1 flip P s data = Ok (hitb s, if hitb s then v else data).
+  Proof.
+    intro Hs. destruct (Hflip s Hs) as (v & H1 & H2). exists v. split; [exact H1|].
+    unfold try1, hitb. rewrite H1. cbn [bind]. destruct (P v); [reflexivity|].
+    rewrite H2. reflexivity.
+  Qed.
+
+  (** What an uninterrupted scan of [n] IDs from [st] yields. *)
+  Definition scan_good (k : nat) (st : Z) (n : nat) (l : list cand) (h : option cand) : Prop :=
+    Forall (fun s => Valid m s /\ length s = k) l /\
+    map (rank m) l = seqZ st (length l) /\
+    (length l <= n)%nat /\
+    match h with
+    | Some r => In r l /\ hitb r = true
+    | None => length l = n /\ Forall (fun s => hitb s = false) l
+    end.
+
+  Lemma scan_spec (k : nat) : forall n s0 st,
+    (1 <= n)%nat -> Valid m s0 -> length s0 = k -> rank m s0 = st ->
+    st + Z.of_nat n <= bz (m + 1) k ->
+    exists l h, scan_loop flip P n m s0 data = Ok (l, h) /\ scan_good k st n l h.
+  Proof.
+    induction n as [|n IH]; intros s0 st Hn Hv Hk Hr Hb; [lia|].
+    cbn [scan_loop].
+    destruct (try1_spec s0 Hv) as (v & Hf & Ht). rewrite Ht. cbn [bind].
+    destruct (hitb s0) eqn:Eh.
+    - exists [s0], (Some s0). split; [reflexivity|].
+      unfold scan_good. cbn [map length seqZ In]. repeat split; auto; try lia. congruence.
+    - destruct n as [|n'].
+      + exists [s0], None. split; [reflexivity|].
+        unfold scan_good. cbn [map length seqZ In]. repeat split; auto; try lia. congruence.
+      + destruct (next_step_rank m s0 Hv) as (s' & Hnx & Hv' & Hl' & Hr'). { rewrite Hk, Hr. lia. }
+        rewrite Hnx. cbn [snd].
+        destruct (IH s' (st + 1) ltac:(lia) Hv' ltac:(congruence) ltac:(lia) ltac:(lia))
+          as (l & h & Hs & Hg).
+        rewrite Hs. cbn [bind]. exists (s0 :: l), h. split; [reflexivity|].
+        destruct Hg as (G1 & G2 & G3 & G4). unfold scan_good.
+        cbn [map length seqZ]. repeat split.
+        * constructor; auto.
+        * rewrite G2, Hr. reflexivity.
+        * lia.
+        * destruct h as [r|].
+          -- destruct G4. split; [right; assumption|assumption].
+          -- destruct G4. split; [lia|constructor; assumption].
+  Qed.
+
+  Lemma tries_eq st en : 0 <= st < en -> en < W64 -> tries st en = Z.to_nat (en - st).
+  Proof.
+    intros H1 H2. unfold tries. rewrite wrap64_mod, Z.mod_small by lia.
+    replace (en - st <? 1) with false by lia. reflexivity.
+  Qed.
+
+  Lemma worker_scan_spec (k : nat) (se : Z * Z) :
+    (1 <= k)%nat -> Z.of_nat k <= total -> total < I63 -> bz total k < W64 ->
+    0 <= fst se < snd se -> snd se <= bz total k ->
+    exists full, worker_scan flip P m k data se = Ok full /\
+                 scan_good k (fst se) (Z.to_nat (snd se - fst se)) (fst full) (snd full).
+  Proof.
+    intros Hk Hkt Ht Hb Hse Hen. destruct se as [st en]. cbn [fst snd] in *.
+    unfold worker_scan. cbn [fst snd].
+    replace total with (m + 1) in Hkt, Ht, Hb, Hen by (unfold m; lia).
+    destruct (seek_ok m k st Hk Hkt Ht Hb ltac:(lia)) as (s0 & Hs & Hv & Hl & Hr).
+    rewrite Hs. cbn [bind]. rewrite tries_eq by lia.
+    destruct (scan_spec k (Z.to_nat (en - st)) s0 st ltac:(lia) Hv Hl Hr ltac:(lia)) as (l & h & H1 & H2).
+    exists (l, h). split; assumption.
+  Qed.
+
+  (** * 3. One distance *)
+
+  Lemma round_rel_cases (specs : list (@wspec)) runs res :
+    any_fail specs = false -> round_rel specs runs res ->
+    (res = Ok None /\ Forall (fun sp : wspec => snd (snd sp) = None) specs) \/
+    (exists r sp, In sp specs /\ snd (snd sp) = Some r /\ res = Ok (Some r)).
+  Proof.
+    intros Hnf (HF & Hres). rewrite Hnf in Hres.
+    destruct (any_pub runs) eqn:Ep.
+    - right. destruct Hres as (sp & run & r & Hin & _ & Hh & ->).
+      exists r, sp. split; [|auto]. eapply in_combine_l; eauto.
+    - left. split; [assumption|].
+      unfold any_pub, any_fail in *. clear Hres.
+      induction HF as [|sp run specs' runs' Hw HF IH]; [constructor|].
+      cbn [existsb] in Ep, Hnf. apply orb_false_iff in Ep, Hnf.
+      destruct Ep as [Ep1 Ep2], Hnf as [Hn1 Hn2].
+      constructor; [|apply IH; assumption].
+      destruct sp as [failed [full hit]], run as [tr pub]. cbn [fst snd] in *. subst.
+      cbn in Hw. destruct Hw as [_ ->]. reflexivity.
+  Qed.
+
+  Variable ifail : Z -> Z -> bool.
+  Variables gomax maxconc : Z.
+  Hypothesis Hgomax : 1 <= gomax.
+  Hypothesis Htotal : 0 <= total < I63.
+
+  Definition amount_at (d : Z) : Z := bz total (Z.to_nat d).
+  Definition pieces_at (d : Z) : list (Z * Z) :=
+    pieces (amount_at d) (cfactor gomax maxconc (amount_at d)).
+  Definition scans_good (d : Z) (ps : list (Z * Z)) (fulls : list (list cand * option cand)) : Prop :=
+    Forall2 (fun se full => scan_good (Z.to_nat d) (fst se) (Z.to_nat (snd se - fst se)) (fst full) (snd full))
+            ps fulls.
+
+  Lemma amount_of_bz d : amount_of total (Z.to_nat d) = amount_at d.
+  Proof. unfold amount_of, amount_at, bz. apply binom_fast_Z. lia. Qed.
+
+  Lemma amount_at_pos d : 0 <= d <= total -> 1 <= amount_at d.
+  Proof.
+    intro H. unfold amount_at, bz.
+    pose proof (binom_pos (Z.to_nat total) (Z.to_nat d) ltac:(lia)). lia.
+  Qed.
+
+  Lemma pieces_at_chain d : 0 <= d <= total -> chain 0 (amount_at d) (pieces_at d).
+  Proof.
+    intro H. apply pieces_chain.
+    pose proof (amount_at_pos d H).
+    pose proof (cfactor_bounds gomax maxconc (amount_at d) Hgomax ltac:(lia)). lia.
+  Qed.
+
+  Lemma round_specs_ok d : 1 <= d <= total -> amount_at d < MAX_INT64 ->
+    exists fulls,
+      round_specs flip P ifail gomax maxconc data total d
+      = Ok (combine (map (ifail d) (seqZ 0 (length (pieces_at d)))) fulls) /\
+      scans_good d (pieces_at d) fulls.
+  Proof.
+    intros Hd Ha. unfold round_specs. rewrite amount_of_bz. fold (pieces_at d).
+    pose proof (pieces_at_chain d ltac:(lia)) as Hc.
+    pose proof (chain_bounds _ _ _ Hc) as Hb. rewrite Forall_forall in Hb.
+    destruct (collect_Forall2 (worker_scan flip P (total - 1) (Z.to_nat d) data)
+                (fun se full => scan_good (Z.to_nat d) (fst se) (Z.to_nat (snd se - fst se)) (fst full) (snd full))
+                (pieces_at d)) as (fulls & Hf & HR).
+    { intros se Hin. apply Hb in Hin. unfold amount_at, MAX_INT64 in *.
+      apply worker_scan_spec; try lia. unfold W64. lia. }
+    exists fulls. rewrite Hf. cbn [bind]. split; [reflexivity|exact HR].
+  Qed.
+
+  Lemma scans_sound d ps fulls full r : scans_good d ps fulls -> In full fulls -> snd full = Some r ->
+    Valid m r /\ length r = Z.to_nat d /\ hitb r = true.
+  Proof.
+    intros HF Hin Hr. unfold scans_good in HF.
+    induction HF as [|se f ps' fulls' Hg HF IH]; [contradiction|].
+    destruct Hin as [->|Hin]; [|auto].
+    destruct Hg as (G1 & _ & _ & G4). rewrite Hr in G4. destruct G4 as [Hi Hh].
+    rewrite Forall_forall in G1. destruct (G1 r Hi). auto.
+  Qed.
+
+  Lemma scans_complete d ps fulls : 0 <= d -> chain 0 (amount_at d) ps -> scans_good d ps fulls ->
+    Forall (fun full : list cand * option cand => snd full = None) fulls ->
+    forall s, Valid m s -> length s = Z.to_nat d -> hitb s = false.
+  Proof.
+    intros Hd Hc HF Hn s Hv Hl.
+    pose proof (rank_bounds m s Hv) as Hrb. rewrite Hl in Hrb.
+    replace (m + 1) with total in Hrb by (unfold m; lia). fold (amount_at d) in Hrb.
+    destruct (chain_cover _ _ _ (rank m s) Hc Hrb) as (se & Hin & Hse).
+    pose proof (chain_bounds _ _ _ Hc) as Hb. rewrite Forall_forall in Hb. specialize (Hb se Hin).
+    unfold scans_good in HF. clear Hc.
+    induction HF as [|se' f ps' fulls' Hg HF IH]; [contradiction|].
+    inversion Hn; subst.
+    destruct Hin as [->|Hin]; [|auto].
+    destruct Hg as (G1 & G2 & _ & G4). rewrite H1 in G4. destruct G4 as [Hlen Hall].
+    assert (Hi : In (rank m s) (map (rank m) (fst f))).
+    { rewrite G2, In_seqZ, Hlen. lia. }
+    apply in_map_iff in Hi. destruct Hi as (s' & Hrk & Hin').
+    rewrite Forall_forall in G1, Hall. destruct (G1 s' Hin') as [Hv' Hl'].
+    assert (s' = s) by (apply (rank_inj m); congruence). subst s'. auto.
+  Qed.
+
+  (** * 5b. Every ID offered at most once per distance *)
+
+  Lemma worker_ok_prefix anypub (sp : wspec) (run : wrun) :
+    worker_ok anypub sp run -> exists rest, fst (snd sp) = fst run ++ rest.
+  Proof.
+    destruct sp as [failed [full hit]], run as [tr pub]. cbn [worker_ok fst snd].
+    destruct failed; [intros [-> _]; exists full; reflexivity|].
+    destruct pub; [intros [-> _]; exists []; symmetry; apply app_nil_r|].
+    destruct anypub.
+    - intros (rest & -> & _). exists rest. reflexivity.
+    - intros [-> _]. exists []. symmetry. apply app_nil_r.
+  Qed.
+
+  Definition ids_in (se : Z * Z) (l : list Z) : Prop :=
+    exists n, l = seqZ (fst se) n /\ Z.of_nat n <= snd se - fst se.
+
+  Lemma chain_ids_nodup : forall ps a b ids, chain a b ps -> Forall2 ids_in ps ids ->
+    NoDup (concat ids) /\ Forall (fun x => a <= x < b) (concat ids).
+  Proof.
+    induction ps as [|[st en] ps IH]; intros a b ids Hc HF; inversion HF; subst; cbn [concat].
+    - split; constructor.
+    - cbn [chain fst snd] in Hc. destruct Hc as (-> & Hlt & Hc).
+      destruct (IH en b l' Hc H3) as [N1 N2].
+      destruct H1 as (n & -> & Hn). cbn [fst snd] in *.
+      pose proof (chain_le _ _ _ Hc).
+      split.
+      + rewrite Forall_forall in N2. apply NoDup_app_disj; [apply NoDup_seqZ|exact N1|].
+        intros x Hx Hx'. apply In_seqZ in Hx. apply N2 in Hx'. lia.
+      + apply Forall_app. split.
+        * rewrite Forall_forall. intros x Hx. apply In_seqZ in Hx. lia.
+        * eapply Forall_impl; [|exact N2]. cbn. intros; lia.
+  Qed.
+
+  Lemma round_ids d anypub : forall ps fulls fails (runs : list (@wrun)),
+    Forall (fun se : Z * Z => fst se <= snd se) ps ->
+    scans_good d ps fulls -> length fails = length fulls ->
+    Forall2 (worker_ok anypub) (combine fails fulls) runs ->
+    Forall2 ids_in ps (map (map (rank m)) (map fst runs)).
+  Proof.
+    induction ps as [|se ps IH]; intros fulls fails runs Hle Hg Hl HF.
+    - inversion Hg; subst. destruct fails; cbn in *; inversion HF; subst; constructor.
+    - inversion Hg as [|se' full ps' fulls' Hgood Hg' E1 E2]; subst.
+      destruct fails as [|f fails]; cbn [length] in Hl; [lia|].
+      cbn [combine] in HF.
+      inversion HF as [|sp run specs' runs' Hw HF' E1 E2]; subst. cbn [map].
+      inversion Hle as [|x l Hse Hle' E1]; subst. constructor.
+      + apply worker_ok_prefix in Hw. destruct Hw as (rest & Hfull). cbn [snd fst] in Hfull.
+        destruct Hgood as (_ & G2 & G3 & _).
+        exists (length (fst run)). rewrite Hfull, map_app, app_length, seqZ_app in G2.
+        apply app_eq_len in G2; [|rewrite map_length, seqZ_length; reflexivity].
+        split; [apply G2|]. rewrite Hfull, app_length in G3. lia.
+      + eapply IH; eauto.
+  Qed.
+
+  Definition round_once (round : list (list cand)) : Prop :=
+    NoDup (map (rank m) (concat round)).
+
+  Lemma concat_map_map {X Y} (f : X -> Y) (ll : list (list X)) :
+    map f (concat ll) = concat (map (map f) ll).
+  Proof. induction ll; cbn [concat map]; [reflexivity|]. rewrite map_app, IHll. reflexivity. Qed.
+
+  Lemma dist_once : forall n d tr res, 1 <= d ->
+    (forall d', d <= d' < d + Z.of_nat n -> d' <= total -> amount_at d' < MAX_INT64) ->
+    dist_rel flip P ifail gomax maxconc data total n d tr res ->
+    Forall round_once tr.
+  Proof.
+    induction n as [|n IH]; intros d tr res Hd Hamt H; cbn [dist_rel] in H.
+    - destruct H as [-> _]. constructor.
+    - destruct (total <? d) eqn:Etd; [destruct H as [-> _]; constructor|].
+      assert (Hdt : 1 <= d <= total) by lia.
+      pose proof (Hamt d ltac:(lia) ltac:(lia)) as Ha.
+      rewrite amount_of_bz in H. replace (MAX_INT64 <=? amount_at d) with false in H by lia.
+      destruct (round_specs_ok d Hdt Ha) as (fulls & Hspecs & Hgood). rewrite Hspecs in H.
+      destruct H as (runs & rres & [HF _] & Hrest).
+      pose proof (pieces_at_chain d ltac:(lia)) as Hc.
+      assert (Hround : round_once (map fst runs)).
+      { unfold round_once. rewrite concat_map_map.
+        eapply (chain_ids_nodup _ _ _ _ Hc).
+        eapply round_ids; eauto.
+        - eapply Forall_impl; [|apply (chain_bounds _ _ _ Hc)]. cbn. intros; lia.
+        - rewrite map_length, seqZ_length. apply (Forall2_len _ _ _ Hgood). }
+      destruct rres as [[r|]|c| |].
+      + destruct Hrest as [-> _]. constructor; [assumption|constructor].
+      + destruct Hrest as (rest & -> & Hrest). constructor; [assumption|].
+        apply (IH (d + 1) rest res); [lia|intros; apply Hamt; lia|exact Hrest].
+      + destruct Hrest as [-> _]. constructor; [assumption|constructor].
+      + destruct Hrest as [-> _]. constructor; [assumption|constructor].
+      + destruct Hrest as [-> _]. constructor; [assumption|constructor].
+  Qed.
+
+  Lemma bf_once item_size wmin wmax tr res :
+    total = total_bits data item_size -> 0 <= wmin ->
+    (forall d, 1 <= d -> wmin <= d <= wmax -> d <= total -> amount_at d < MAX_INT64) ->
+    bf_run flip P ifail gomax maxconc data item_size wmin wmax tr res ->
+    Forall round_once tr.
+  Proof.
+    intros Ht Hw Hamt H. unfold bf_run in H. rewrite <- Ht in H.
+    destruct (wmax <? wmin) eqn:Ew; [destruct H as [-> _]; constructor|].
+    assert (H0 : round_once [[[]]]).
+    { unfold round_once. cbn. constructor; [intros []|constructor]. }
+    destruct (wmin =? 0) eqn:E0.
+    - destruct (ifail 0 0); [destruct H as [-> _]; constructor|].
+      destruct (P data).
+      + destruct H as [-> _]. constructor; [assumption|constructor].
+      + destruct H as (tr' & -> & H). constructor; [assumption|].
+        eapply dist_once; [| |exact H]; [lia|]. intros d' Hd' Hdt. apply Hamt; lia.
+    - eapply dist_once; [| |exact H]; [lia|]. intros d' Hd' Hdt. apply Hamt; lia.
+  Qed.
+
+  (** * 4. All distances *)
+
+  Hypothesis Hnofail : forall d i, ifail d i = false.
+
+  Lemma no_fail_specs d : forall (l : list Z) (fulls : list (list cand * option cand)),
+    any_fail (combine (map (ifail d) l) fulls) = false.
+  Proof.
+    unfold any_fail. induction l; intros [|f fulls]; cbn [map combine existsb fst]; auto.
+    rewrite Hnofail, IHl. reflexivity.
+  Qed.
+
+  Definition len (s : cand) : Z := Z.of_nat (length s).
+
+  (** what [dist_rel] over distances [d, d+n) can return *)
+  Definition dist_post (d n : Z) (res : outcome (option cand)) : Prop :=
+    (res = Ok None /\ forall s, Valid m s -> d <= len s < d + n -> hitb s = false) \/
+    (exists r, res = Ok (Some r) /\ Valid m r /\ d <= len r < d + n /\ hitb r = true /\
+               forall s, Valid m s -> d <= len s < len r -> hitb s = false).
+
+  Lemma dist_spec : forall n d tr res, 1 <= d ->
+    (forall d', d <= d' < d + Z.of_nat n -> d' <= total -> amount_at d' < MAX_INT64) ->
+    dist_rel flip P ifail gomax maxconc data total n d tr res ->
+    dist_post d (Z.of_nat n) res.
+  Proof.
+    induction n as [|n IH]; intros d tr res Hd Hamt H; cbn [dist_rel] in H.
+    - destruct H as [_ ->]. left. split; [reflexivity|]. intros; lia.
+    - destruct (total <? d) eqn:Etd.
+      + destruct H as [_ ->]. left. split; [reflexivity|].
+        intros s Hv Hl. pose proof (Valid_length m s ltac:(unfold m; lia) Hv). unfold len, m in *. lia.
+      + assert (Hdt : 1 <= d <= total) by lia.
+        pose proof (Hamt d ltac:(lia) ltac:(lia)) as Ha.
+        rewrite amount_of_bz in H. replace (MAX_INT64 <=? amount_at d) with false in H by lia.
+        destruct (round_specs_ok d Hdt Ha) as (fulls & Hspecs & Hgood). rewrite Hspecs in H.
+        destruct H as (runs & rres & Hround & Hrest).
+        pose proof (Forall2_len _ _ _ Hgood) as Hlen.
+        apply round_rel_cases in Hround; [|apply no_fail_specs].
+        destruct Hround as [[-> Hnone]|(r & sp & Hin & Hhit & ->)].
+        * (* nothing at this distance: every candidate of distance d misses *)
+          destruct Hrest as (rest & _ & Hrest).
+          assert (Hmiss : forall s, Valid m s -> length s = Z.to_nat d -> hitb s = false).
+          { apply (scans_complete d (pieces_at d) fulls); try lia; auto.
+            - apply pieces_at_chain. lia.
+            - rewrite Forall_forall in *. intros full Hf.
+              destruct (in_combine_snd (map (ifail d) (seqZ 0 (length (pieces_at d)))) fulls full) as (x & Hx);
+                [rewrite map_length, seqZ_length; exact Hlen|exact Hf|].
+              apply (Hnone (x, full) Hx). }
+          apply IH in Hrest; [|lia|intros; apply Hamt; lia].
+          destruct Hrest as [[-> Hall]|(r & -> & Hv & Hl & Hh & Hmin)].
+          -- left. split; [reflexivity|]. intros s Hv Hl.
+             destruct (Z.eq_dec (len s) d) as [E|E].
+             ++ apply Hmiss; auto. unfold len in E. lia.
+             ++ apply Hall; auto. lia.
+          -- right. exists r. repeat split; auto; try lia. intros s Hv' Hl'.
+             destruct (Z.eq_dec (len s) d) as [E|E].
+             ++ apply Hmiss; auto. unfold len in E. lia.
+             ++ apply Hmin; auto. lia.
+        * destruct Hrest as [_ ->].
+          destruct (scans_sound d _ fulls (snd sp) r Hgood) as (Hv & Hl & Hh).
+          { destruct sp as [f full]. eapply in_combine_r; eauto. }
+          { exact Hhit. }
+          right. exists r. unfold len. repeat split; auto; try lia.
+  Qed.
+
+  (** * 5. [run] *)
+
+  Hypothesis Hflip_nil : flip [] data = Ok data.
+
+  (** candidates of the window *)
+  Definition in_window (wmin wmax : Z) (s : cand) : Prop :=
+    Valid m s /\ wmin <= len s <= wmax.
+
+  Definition bf_post (wmin wmax : Z) (res : outcome (option cand)) : Prop :=
+    (res = Ok None /\ forall s, in_window wmin wmax s -> hitb s = false) \/
+    (exists r, res = Ok (Some r) /\ in_window wmin wmax r /\ hitb r = true /\
+               forall s, in_window wmin wmax s -> hitb s = true -> len r <= len s).
+
+  Lemma hitb_nil : hitb [] = P data.
+  Proof. unfold hitb. rewrite Hflip_nil. reflexivity. Qed.
+
+  Lemma bf_spec item_size wmin wmax tr res :
+    total = total_bits data item_size -> 0 <= wmin <= wmax ->
+    (forall d, 1 <= d -> wmin <= d <= wmax -> d <= total -> amount_at d < MAX_INT64) ->
+    bf_run flip P ifail gomax maxconc data item_size wmin wmax tr res ->
+    bf_post wmin wmax res.
+  Proof.
+    intros Ht Hw Hamt H. unfold bf_run in H. rewrite <- Ht in H.
+    replace (wmax <? wmin) with false in H by lia.
+    assert (Hlen : forall s, Valid m s -> len s <= total).
+    { intros s Hv. pose proof (Valid_length m s ltac:(unfold m; lia) Hv). unfold len, m in *. lia. }
+    destruct (wmin =? 0) eqn:E0.
+    - assert (wmin = 0) by lia. subst wmin. rewrite Hnofail in H.
+      destruct (P data) eqn:EP.
+      + destruct H as [_ ->]. right. exists []. unfold in_window, len. cbn [length].
+        repeat split; try lia. rewrite hitb_nil. exact EP.
+      + destruct H as (tr' & _ & H). apply dist_spec in H; [|lia|].
+        2:{ intros d' Hd' Hdt. apply Hamt; lia. }
+        assert (Hnil : forall s, len s = 0 -> hitb s = false).
+        { intros s Hs. destruct s; [rewrite hitb_nil; exact EP|unfold len in Hs; cbn [length] in Hs; lia]. }
+        destruct H as [[-> Hall]|(r & -> & Hv & Hl & Hh & Hmin)].
+        * left. split; [reflexivity|]. intros s [Hv Hl].
+          destruct (Z.eq_dec (len s) 0); [auto|]. apply Hall; auto. specialize (Hlen s Hv). lia.
+        * right. exists r. unfold in_window. repeat split; auto; try lia.
+          intros s [Hv' Hl'] Hh'. destruct (Z_le_gt_dec (len r) (len s)); [assumption|].
+          destruct (Z.eq_dec (len s) 0) as [E|E]; [rewrite (Hnil s E) in Hh'; discriminate|].
+          rewrite Hmin in Hh'; [discriminate|assumption|lia].
+    - apply dist_spec in H; [|lia|].
+      2:{ intros d' Hd' Hdt. apply Hamt; lia. }
+      destruct H as [[-> Hall]|(r & -> & Hv & Hl & Hh & Hmin)].
+      + left. split; [reflexivity|]. intros s [Hv Hl]. apply Hall; auto. specialize (Hlen s Hv). lia.
+      + right. exists r. unfold in_window. repeat split; auto; try lia.
+        intros s [Hv' Hl'] Hh'. destruct (Z_le_gt_dec (len r) (len s)); [assumption|].
+        rewrite Hmin in Hh'; [discriminate|assumption|lia].
+  Qed.
+
+  (** The worker's private copy is the initial data again after every miss:
+      every candidate is evaluated on [flip s] of the caller's data. *)
+  Lemma try1_restores s : Valid m s ->
+    exists v, flip s data = Ok v /\
+      (try1 flip P s data = Ok (true, v) /\ P v = true \/
+       try1 flip P s data = Ok (false, data) /\ P v = false).
+  Proof.
+    intro Hs. destruct (try1_spec s Hs) as (v & Hf & Ht). exists v. split; [assumption|].
+    unfold hitb in Ht. rewrite Hf in Ht. destruct (P v); auto.
+  Qed.
+End Generic.
+
+(** * 6. The two item types *)
+
+(** What the theorems need from applyBitFlipsFunc on [data] with [total] bits. *)
+Definition flips_ok {A} (flip : list Z -> list A -> outcome (list A)) (data : list A) (total : Z) : Prop :=
+  (forall s, Valid (total - 1) s -> exists v, flip s data = Ok v /\ flip s v = Ok data) /\
+  flip [] data = Ok data.
+
+Lemma total_bits_range {A} (data : list A) isz : 0 <= total_bits data isz < W64.
+Proof. unfold total_bits. rewrite wrap64_mod. apply Z.mod_pos_bound. reflexivity. Qed.
+
+Lemma flips_ok_bools data isz :
+  total_bits data isz <= Z.of_nat (length data) -> flips_ok flip_bools data (total_bits data isz).
+Proof.
+  intro H. split; [|reflexivity]. intros s Hv.
+  destruct (Valid_flip_hyps _ s (Z.of_nat (length data)) Hv ltac:(lia)) as [Hnd Hr].
+  destruct (flip_bools_spec s data Hnd Hr) as (v & Hf & _).
+  exists v. split; [exact Hf|]. eapply flip_bools_invol; eauto.
+Qed.
+
+Lemma flips_ok_bytes data isz :
+  total_bits data isz <= 8 * Z.of_nat (length data) -> flips_ok flip_bytes data (total_bits data isz).
+Proof.
+  intro H. split; [|reflexivity]. intros s Hv.
+  destruct (Valid_flip_hyps _ s (8 * Z.of_nat (length data)) Hv ltac:(lia)) as [Hnd Hr].
+  destruct (flip_bytes_spec s data Hnd Hr) as (v & Hf & _).
+  exists v. split; [exact Hf|]. eapply flip_bytes_invol; eauto.
+Qed.
+
+(** itemSize 1 for bools, itemSize <= 8 for bytes *)
+Lemma total_bits_fit {A} (data : list A) isz c : 0 <= isz <= c -> c <= 8 ->
+  Z.of_nat (length data) < I63 / 8 -> total_bits data isz <= c * Z.of_nat (length data).
+Proof.
+  intros H1 H2 H3. unfold total_bits. rewrite wrap64_mod.
+  assert (I63 / 8 = 1152921504606846976) by reflexivity.
+  rewrite Z.mod_small; [nia|]. unfold W64. nia.
+Qed.
+
+(** the "too many combinations" error is out of reach in the property's domain
+    (at most 64 items of at most 8 bits, distances up to 4) *)
+Definition no_overflow (total wmin wmax : Z) : Prop :=
+  forall d, 1 <= d -> wmin <= d <= wmax -> d <= total -> bz total (Z.to_nat d) < MAX_INT64.
+
+Lemma no_overflow_domain total wmin wmax : total <= 512 -> wmax <= 4 -> no_overflow total wmin wmax.
+Proof.
+  intros Ht Hw d Hd Hwd Hdt.
+  assert (Hle : bz total (Z.to_nat d) <= bz 512 (Z.to_nat d)) by (apply bz_mono; lia).
+  assert (Hb : bz 512 (Z.to_nat d) < MAX_INT64).
+  { unfold bz. rewrite <- binom_fast_Z by lia.
+    assert (Hc : d = 1 \/ d = 2 \/ d = 3 \/ d = 4) by lia.
+    destruct Hc as [-> | [-> | [-> | ->]]]; vm_compute; reflexivity. }
+  lia.
+Qed.
+
+(** * 7. The checker of the correspondence run is sound for the relation *)
+
+Lemma zlist_eqb_eq : forall a b, zlist_eqb a b = true -> a = b.
+Proof.
+  induction a as [|x a IH]; intros [|y b] H; cbn [zlist_eqb] in H; try discriminate; auto.
+  apply andb_true_iff in H. destruct H as [H1 H2]. apply Z.eqb_eq in H1. f_equal; auto.
+Qed.
+
+Lemma res_eqb_eq a b : res_eqb a b = true -> a = b.
+Proof.
+  destruct a as [[x|]|c| |], b as [[y|]|c'| |]; cbn [res_eqb]; intro H; try discriminate; auto.
+  - apply zlist_eqb_eq in H. congruence.
+  - apply Z.eqb_eq in H. congruence.
+Qed.
+
+Lemma nil_b_eq {X} (l : list X) : nil_b l = true -> l = [].
+Proof. destruct l; [reflexivity|discriminate]. Qed.
+
+Section Admits.
+  Context {A : Type}.
+  Variable flip : list Z -> list A -> outcome (list A).
+  Variable eqbA : A -> A -> bool.
+  Variable P : list A -> bool.
+  Variable ifail : Z -> Z -> bool.
+  Variables (gomax maxconc : Z).
+
+  Lemma scan_dig_spec : forall fuel m s dc lim n h,
+    match scan_loop flip P fuel m s dc with
+    | Ok (l, hit) => exists h', scan_dig flip P fuel m s dc lim n h = Ok (n + Z.of_nat (length l), h', hit)
+    | Err c => scan_dig flip P fuel m s dc lim n h = Err c
+    | Panic => scan_dig flip P fuel m s dc lim n h = Panic
+    | OutOfFuel => scan_dig flip P fuel m s dc lim n h = OutOfFuel
+    end.
+  Proof.
+    induction fuel as [|fuel IH]; intros m s dc lim n h; cbn [scan_loop scan_dig].
+    - exists h. cbn [length]. do 3 f_equal. lia.
+    - destruct (try1 flip P s dc) as [[hit dc']|c| |]; cbn [bind]; try reflexivity.
+      destruct hit.
+      + eexists. cbn [length]. reflexivity.
+      + destruct fuel as [|fuel'].
+        * eexists. cbn [length]. reflexivity.
+        * specialize (IH m (snd (next m s)) dc' lim (n + 1) (if n <? lim then mixc h s else h)).
+          destruct (scan_loop flip P (S fuel') m (snd (next m s)) dc') as [[l hit]|c| |]; cbn [bind]; auto.
+          destruct IH as (h' & IH). exists h'. rewrite IH. cbn [length]. do 3 f_equal. lia.
+  Qed.
+
+  Lemma scan_loop_hit_nonempty : forall fuel m s dc l r,
+    scan_loop flip P fuel m s dc = Ok (l, Some r) -> l <> [].
+  Proof.
+    intros [|fuel] m s dc l r H; cbn [scan_loop] in H; [discriminate|].
+    destruct (try1 flip P s dc) as [[hit dc']|c| |]; cbn [bind] in H; try discriminate.
+    destruct hit; [inversion H; discriminate|].
+    destruct fuel; [inversion H|].
+    destruct (scan_loop flip P (S fuel) m (snd (next m s)) dc') as [[l' h']|c| |]; cbn [bind] in H; try discriminate.
+    inversion H. discriminate.
+  Qed.
+
+  Lemma worker_dig_spec m k data se lim L h hit :
+    worker_dig flip P m k data se lim = Ok (L, h, hit) ->
+    exists l, worker_scan flip P m k data se = Ok (l, hit) /\ L = Z.of_nat (length l) /\
+              (hit <> None -> l <> []).
+  Proof.
+    unfold worker_dig, worker_scan. destruct (seek m k (fst se)) as [s0|c| |]; cbn [bind]; try discriminate.
+    intro H. pose proof (scan_dig_spec (tries (fst se) (snd se)) m s0 data lim 0 0) as S.
+    destruct (scan_loop flip P (tries (fst se) (snd se)) m s0 data) as [[l hit']|c| |] eqn:E;
+      try (rewrite S in H; discriminate).
+    destruct S as (h' & S). rewrite S in H. inversion H; subst.
+    exists l. repeat split; auto.
+    intro Hh. destruct hit as [r|]; [|congruence]. eapply scan_loop_hit_nonempty; eauto.
+  Qed.
+
+  Definition tr_of (o : option (wobs A)) (full : list cand) : list cand :=
+    match o with None => [] | Some w => firstn (Z.to_nat (w_n w)) full end.
+  Definition pub_of (o : option (wobs A)) : bool :=
+    match o with None => false | Some w => w_hit w end.
+
+  Lemma worker_check_sound m k data se failed anypub o ph :
+    worker_check flip eqbA P m k data se failed anypub o = Some ph ->
+    exists full, worker_scan flip P m k data se = Ok full /\
+      worker_ok anypub (failed, full) (tr_of o (fst full), pub_of o) /\
+      ph = (if pub_of o then snd full else None).
+  Proof.
+    unfold worker_check. destruct o as [w|]; cbn [tr_of pub_of].
+    - destruct failed; [discriminate|].
+      destruct (w_n w <? 1) eqn:En; [discriminate|].
+      destruct (worker_dig flip P m k data se (w_n w)) as [[[L h] hit]|c| |] eqn:Ed; try discriminate.
+      destruct (worker_dig_spec _ _ _ _ _ _ _ _ Ed) as (l & Hs & HL & Hne).
+      destruct (negb _); [discriminate|].
+      assert (Hex : forall pub phv,
+                worker_ok anypub (false, (l, hit)) (firstn (Z.to_nat (w_n w)) l, pub) ->
+                phv = (if pub then hit else None) ->
+                exists full, worker_scan flip P m k data se = Ok full /\
+                  worker_ok anypub (false, full) (firstn (Z.to_nat (w_n w)) (fst full), pub) /\
+                  phv = (if pub then snd full else None)).
+      { intros pub phv H1 H2. exists (l, hit). cbn [fst snd]. auto. }
+      destruct (w_hit w).
+      + destruct ((w_n w =? L) && is_some hit) eqn:E; [|discriminate]. intro H; inversion H; subst ph.
+        apply andb_true_iff in E. destruct E as [E1 E2].
+        apply Hex; [|reflexivity]. cbn [worker_ok]. split.
+        * replace (Z.to_nat (w_n w)) with (length l) by lia. apply firstn_all.
+        * destruct hit; [discriminate|discriminate].
+      + destruct anypub.
+        * destruct ((w_n w <=? L) && _) eqn:E; [|discriminate]. intro H; inversion H; subst ph.
+          apply andb_true_iff in E. destruct E as [E1 E2].
+          apply Hex; [|reflexivity]. cbn [worker_ok]. exists (skipn (Z.to_nat (w_n w)) l).
+          split; [symmetry; apply firstn_skipn|].
+          intro Hh. destruct hit as [r|]; [|congruence]. cbn [is_some] in E2.
+          intro Hs0. apply (f_equal (@length _)) in Hs0. rewrite skipn_length in Hs0. cbn [length] in Hs0. lia.
+        * destruct ((w_n w =? L) && negb (is_some hit)) eqn:E; [|discriminate]. intro H; inversion H; subst ph.
+          apply andb_true_iff in E. destruct E as [E1 E2].
+          apply Hex; [|reflexivity]. cbn [worker_ok]. split.
+          -- replace (Z.to_nat (w_n w)) with (length l) by lia. apply firstn_all.
+          -- destruct hit; [discriminate|reflexivity].
+    - destruct (failed || anypub) eqn:Efa; [|discriminate].
+      destruct (worker_dig flip P m k data se 0) as [[[L h] hit]|c| |] eqn:Ed; try discriminate.
+      destruct (worker_dig_spec _ _ _ _ _ _ _ _ Ed) as (l & Hs & HL & Hne).
+      intro H; inversion H; subst ph.
+      exists (l, hit). split; [exact Hs|]. split; [|reflexivity]. cbn [fst snd worker_ok].
+      destruct failed; [auto|]. cbn [orb] in Efa. subst anypub.
+      exists l. split; [reflexivity|exact Hne].
+  Qed.
+
+  Lemma round_walk_sound m k data anypub : forall ps fails os hits,
+    round_walk flip eqbA P m k data ps fails anypub os = Some hits ->
+    exists fulls runs,
+      collect (map (worker_scan flip P m k data) ps) = Ok fulls /\
+      length fails = length ps /\ length fulls = length ps /\
+      Forall2 (worker_ok anypub) (combine fails fulls) runs /\
+      any_pub runs = existsb w_hit os /\
+      (forall r, In r hits ->
+         exists sp run, In (sp, run) (combine (combine fails fulls) runs) /\
+                        snd run = true /\ snd (snd sp) = Some r).
+  Proof.
+    induction ps as [|se ps IH]; intros fails os hits H; cbn [round_walk] in H.
+    - destruct fails; [|discriminate]. destruct os; [|discriminate]. inversion H; subst.
+      exists [], []. cbn. repeat split; auto. intros r [].
+    - destruct fails as [|f fails]; [discriminate|].
+      destruct (seek m k (fst se)) as [s0|c| |] eqn:Es; try discriminate.
+      set (sel := match os with
+                  | w :: t => if zlist_eqb (w_first w) s0 then (Some w, t) else (None, os)
+                  | [] => (None, [])
+                  end) in H.
+      destruct sel as [o os'] eqn:Esel.
+      destruct (worker_check flip eqbA P m k data se f anypub o) as [ph|] eqn:Ew; [|discriminate].
+      destruct (round_walk flip eqbA P m k data ps fails anypub os') as [hits'|] eqn:Er; [|discriminate].
+      inversion H; subst hits. clear H.
+      destruct (worker_check_sound _ _ _ _ _ _ _ _ Ew) as (full & Hfull & Hok & Hph).
+      destruct (IH _ _ _ Er) as (fulls & runs & Hc & Hl1 & Hl2 & HF & Hap & Hhits).
+      exists (full :: fulls), ((tr_of o (fst full), pub_of o) :: runs).
+      cbn [map collect]. rewrite Hfull, Hc. cbn [bind length combine].
+      repeat split; try lia.
+      + constructor; assumption.
+      + unfold any_pub in *. cbn [existsb snd]. rewrite Hap.
+        subst sel. destruct os as [|w t].
+        * inversion Esel; subst. reflexivity.
+        * destruct (zlist_eqb (w_first w) s0); inversion Esel; subst; cbn [pub_of existsb]; reflexivity.
+      + intros r Hr.
+        assert (Hcase : (pub_of o = true /\ snd full = Some r) \/ In r hits').
+        { rewrite Hph in Hr. destruct (pub_of o).
+          - destruct (snd full) as [r'|]; [|auto]. destruct Hr as [<-|Hr]; auto.
+          - auto. }
+        destruct Hcase as [[Hp Hs]|Hin].
+        * exists (f, full), (tr_of o (fst full), pub_of o). cbn [In fst snd]. auto.
+        * destruct (Hhits r Hin) as (sp & run & Hi & Hrest). exists sp, run. cbn [In]. auto.
+  Qed.
+
+  Lemma any_fail_combine : forall (fails : list bool) (fulls : list (list cand * option cand)),
+    length fails = length fulls ->
+    any_fail (combine fails fulls) = existsb (fun b : bool => b) fails.
+  Proof.
+    unfold any_fail. induction fails as [|f fails IH]; intros [|x fulls] Hl; cbn in *; try lia; auto.
+    rewrite IH by lia. reflexivity.
+  Qed.
+
+  Lemma dist_check_sound data total : forall n d robs res ninit,
+    dist_check flip eqbA P ifail gomax maxconc data total n d robs res ninit = true ->
+    exists tr, dist_rel flip P ifail gomax maxconc data total n d tr res.
+  Proof.
+    induction n as [|n IH]; intros d robs res ninit H; cbn [dist_check dist_rel] in *.
+    - apply andb_true_iff in H. destruct H as [H _]. apply andb_true_iff in H. destruct H as [_ H].
+      apply res_eqb_eq in H. exists []. auto.
+    - destruct (total <? d).
+      { apply andb_true_iff in H. destruct H as [H _]. apply andb_true_iff in H. destruct H as [_ H].
+        apply res_eqb_eq in H. exists []. auto. }
+      destruct (MAX_INT64 <=? amount_of total (Z.to_nat d)).
+      { apply andb_true_iff in H. destruct H as [H _]. apply andb_true_iff in H. destruct H as [_ H].
+        apply res_eqb_eq in H. exists []. auto. }
+      destruct robs as [|os rest]; [discriminate|].
+      set (amount := amount_of total (Z.to_nat d)) in *.
+      set (ps := pieces amount (cfactor gomax maxconc amount)) in *.
+      set (fails := map (ifail d) (seqZ 0 (length ps))) in *.
+      destruct (round_walk flip eqbA P (total - 1) (Z.to_nat d) data ps fails (existsb w_hit os) os)
+        as [hits|] eqn:Er; [|discriminate].
+      destruct (round_walk_sound _ _ _ _ _ _ _ _ Er) as (fulls & runs & Hc & Hl1 & Hl2 & HF & Hap & Hhits).
+      unfold round_specs. fold amount. fold ps. rewrite Hc. cbn [bind]. fold fails.
+      rewrite <- Hap in HF.
+      destruct (existsb (fun b : bool => b) fails) eqn:Ef.
+      + apply andb_true_iff in H. destruct H as [H _]. apply andb_true_iff in H. destruct H as [_ H].
+        apply res_eqb_eq in H. subst res.
+        exists [map fst runs], runs, (Err 4). split; [|auto].
+        split; [exact HF|]. rewrite any_fail_combine by lia. rewrite Ef. reflexivity.
+      + destruct (existsb w_hit os) eqn:Ep.
+        * apply andb_true_iff in H. destruct H as [_ H].
+          destruct res as [[r|]|c| |]; try discriminate.
+          apply existsb_exists in H. destruct H as (r' & Hin & Hr). apply zlist_eqb_eq in Hr. subst r'.
+          exists [map fst runs], runs, (Ok (Some r)). split; [|auto].
+          split; [exact HF|]. rewrite any_fail_combine by lia. rewrite Ef, Hap.
+          destruct (Hhits r Hin) as (sp & run & Hi & Hp & Hs).
+          exists sp, run, r. auto.
+        * destruct (IH _ _ _ _ H) as (tr' & Htr).
+          exists (map fst runs :: tr'), runs, (Ok None). split.
+          -- split; [exact HF|]. rewrite any_fail_combine by lia. rewrite Ef, Hap. reflexivity.
+          -- exists tr'. auto.
+  Qed.
+
+  Theorem admits_sound data item_size wmin wmax robs res ninit :
+    admits flip eqbA P ifail gomax maxconc data item_size wmin wmax robs res ninit = true ->
+    bf_outcome flip P ifail gomax maxconc data item_size wmin wmax res.
+  Proof.
+    unfold admits, bf_outcome, bf_run. intro H.
+    destruct (wmax <? wmin).
+    { apply andb_true_iff in H. destruct H as [H _]. apply andb_true_iff in H. destruct H as [_ H].
+      apply res_eqb_eq in H. exists []. auto. }
+    destruct (wmin =? 0).
+    - destruct (ifail 0 0).
+      { apply andb_true_iff in H. destruct H as [H _]. apply andb_true_iff in H. destruct H as [_ H].
+        apply res_eqb_eq in H. exists []. auto. }
+      destruct robs as [|[|w [|w' ws]] rest]; try discriminate.
+      apply andb_true_iff in H. destruct H as [_ H].
+      destruct (P data).
+      + apply andb_true_iff in H. destruct H as [H _]. apply andb_true_iff in H. destruct H as [_ H].
+        apply res_eqb_eq in H. exists [[[[]]]]. auto.
+      + destruct (dist_check_sound _ _ _ _ _ _ _ H) as (tr & Htr). exists ([[[]]] :: tr), tr. auto.
+    - destruct (dist_check_sound _ _ _ _ _ _ _ H) as (tr & Htr). exists tr. exact Htr.
+  Qed.
+End Admits.
+
+(** * 8. The property, clause by clause *)
+
+Section Property.
+  Context {A : Type}.
+  Variable flip : list Z -> list A -> outcome (list A).
+  Variable P : list A -> bool.
+
+  (** flipping the positions [s] on [data] gives a value accepted by checkFunc *)
+  Definition satisfies (data : list A) (s : cand) : Prop :=
+    exists v, flip s data = Ok v /\ P v = true.
+
+  Lemma hitb_iff data s : hitb flip P data s = true <-> satisfies data s.
+  Proof.
+    unfold hitb, satisfies. split.
+    - destruct (flip s data) as [v| | |]; try discriminate. eauto.
+    - intros (v & -> & H). exact H.
+  Qed.
+
+  (** a candidate of the window: strictly increasing positions below [total], [wmin..wmax] of them *)
+  Definition candidate (total wmin wmax : Z) (s : cand) : Prop :=
+    Valid (total - 1) s /\ wmin <= Z.of_nat (length s) <= wmax.
+
+  (** Standing assumptions: applyBitFlipsFunc fits the data (see [flips_ok_bools]
+      / [flips_ok_bytes]); GOMAXPROCS >= 1; initFunc does not fail; a proper
+      window; the MaxInt64 guard is out of reach (see [no_overflow_domain]). *)
+  Definition std (data : list A) (isz wmin wmax gomax : Z) (ifail : Z -> Z -> bool) : Prop :=
+    flips_ok flip data (total_bits data isz) /\ total_bits data isz < I63 /\
+    1 <= gomax /\ (forall d i, ifail d i = false) /\ 0 <= wmin <= wmax /\
+    no_overflow (total_bits data isz) wmin wmax.
+
+  Lemma std_post data isz wmin wmax gomax maxconc ifail res :
+    std data isz wmin wmax gomax ifail ->
+    bf_outcome flip P ifail gomax maxconc data isz wmin wmax res ->
+    bf_post flip P data (total_bits data isz) wmin wmax res.
+  Proof.
+    intros ([Hf Hn] & Ht & Hg & Hnf & Hw & Hov) (tr & H).
+    pose proof (total_bits_range data isz).
+    eapply (bf_spec flip P data (total_bits data isz) Hf ifail gomax maxconc); eauto. lia.
+  Qed.
+
+  Lemma in_window_candidate total wmin wmax s :
+    in_window total wmin wmax s <-> candidate total wmin wmax s.
+  Proof. unfold in_window, candidate, len. tauto. Qed.
+
+  Theorem sound data isz wmin wmax gomax maxconc ifail r :
+    std data isz wmin wmax gomax ifail ->
+    bf_outcome flip P ifail gomax maxconc data isz wmin wmax (Ok (Some r)) ->
+    candidate (total_bits data isz) wmin wmax r /\ satisfies data r.
+  Proof.
+    intros Hs Ho. destruct (std_post _ _ _ _ _ _ _ _ Hs Ho) as [[E _]|(r' & E & Hw & Hh & _)].
+    - discriminate.
+    - inversion E; subst r'. split; [apply in_window_candidate, Hw|apply hitb_iff, Hh].
+  Qed.
+
+  Theorem complete data isz wmin wmax gomax maxconc ifail res :
+    std data isz wmin wmax gomax ifail ->
+    (exists s, candidate (total_bits data isz) wmin wmax s /\ satisfies data s) ->
+    bf_outcome flip P ifail gomax maxconc data isz wmin wmax res ->
+    exists r, res = Ok (Some r) /\ candidate (total_bits data isz) wmin wmax r /\ satisfies data r.
+  Proof.
+    intros Hs (s & Hc & Hsat) Ho.
+    destruct (std_post _ _ _ _ _ _ _ _ Hs Ho) as [[_ Hall]|(r & -> & Hw & Hh & _)].
+    - apply in_window_candidate in Hc. apply Hall in Hc. apply hitb_iff in Hsat. congruence.
+    - exists r. split; [reflexivity|]. split; [apply in_window_candidate, Hw|apply hitb_iff, Hh].
+  Qed.
+
+  Theorem minimal data isz wmin wmax gomax maxconc ifail r :
+    std data isz wmin wmax gomax ifail ->
+    bf_outcome flip P ifail gomax maxconc data isz wmin wmax (Ok (Some r)) ->
+    forall s, candidate (total_bits data isz) wmin wmax s -> satisfies data s ->
+              (length r <= length s)%nat.
+  Proof.
+    intros Hs Ho s Hc Hsat.
+    destruct (std_post _ _ _ _ _ _ _ _ Hs Ho) as [[E _]|(r' & E & _ & _ & Hmin)]; [discriminate|].
+    inversion E; subst r'. apply in_window_candidate in Hc. apply hitb_iff in Hsat.
+    specialize (Hmin s Hc Hsat). unfold len in Hmin. lia.
+  Qed.
+
+  Theorem none data isz wmin wmax gomax maxconc ifail res :
+    std data isz wmin wmax gomax ifail ->
+    (forall s, candidate (total_bits data isz) wmin wmax s -> ~ satisfies data s) ->
+    bf_outcome flip P ifail gomax maxconc data isz wmin wmax res ->
+    res = Ok None.
+  Proof.
+    intros Hs Hno Ho.
+    destruct (std_post _ _ _ _ _ _ _ _ Hs Ho) as [[E _]|(r & _ & Hw & Hh & _)]; [exact E|].
+    exfalso. apply (Hno r); [apply in_window_candidate, Hw|apply hitb_iff, Hh].
+  Qed.
+
+  (** no error and no panic, whatever the schedule *)
+  Theorem no_error data isz wmin wmax gomax maxconc ifail res :
+    std data isz wmin wmax gomax ifail ->
+    bf_outcome flip P ifail gomax maxconc data isz wmin wmax res ->
+    exists o, res = Ok o.
+  Proof.
+    intros Hs Ho. destruct (std_post _ _ _ _ _ _ _ _ Hs Ho) as [[E _]|(r & E & _)]; eauto.
+  Qed.
+
+  Theorem once data isz wmin wmax gomax maxconc ifail tr res :
+    flips_ok flip data (total_bits data isz) -> total_bits data isz < I63 -> 1 <= gomax ->
+    0 <= wmin -> no_overflow (total_bits data isz) wmin wmax ->
+    bf_run flip P ifail gomax maxconc data isz wmin wmax tr res ->
+    Forall (fun round => NoDup (map (rank (total_bits data isz - 1)) (concat round)) /\ NoDup (concat round)) tr.
+  Proof.
+    intros [Hf _] Ht Hg Hw Hov H. pose proof (total_bits_range data isz).
+    pose proof (bf_once flip P data (total_bits data isz) Hf ifail gomax maxconc Hg ltac:(lia)
+                  isz wmin wmax tr res eq_refl Hw Hov H) as Ho.
+    eapply Forall_impl; [|exact Ho]. intros round Hr. split; [exact Hr|].
+    eapply NoDup_map_inv_in. exact Hr.
+  Qed.
+
+  Theorem conc_independent data isz wmin wmax ifail gomax1 maxconc1 gomax2 maxconc2 res1 res2 :
+    std data isz wmin wmax gomax1 ifail -> 1 <= gomax2 ->
+    bf_outcome flip P ifail gomax1 maxconc1 data isz wmin wmax res1 ->
+    bf_outcome flip P ifail gomax2 maxconc2 data isz wmin wmax res2 ->
+    (res1 = Ok None /\ res2 = Ok None) \/
+    (exists r1 r2, res1 = Ok (Some r1) /\ res2 = Ok (Some r2) /\ length r1 = length r2).
+  Proof.
+    intros Hs Hg2 H1 H2.
+    assert (Hs2 : std data isz wmin wmax gomax2 ifail).
+    { destruct Hs as (a & b & c & d & e & f). unfold std. tauto. }
+    destruct (std_post _ _ _ _ _ _ _ _ Hs H1) as [[E1 Hall1]|(r1 & E1 & Hw1 & Hh1 & Hmin1)];
+    destruct (std_post _ _ _ _ _ _ _ _ Hs2 H2) as [[E2 Hall2]|(r2 & E2 & Hw2 & Hh2 & Hmin2)].
+    - auto.
+    - rewrite (Hall1 r2 Hw2) in Hh2. discriminate.
+    - rewrite (Hall2 r1 Hw1) in Hh1. discriminate.
+    - right. exists r1, r2. repeat split; auto.
+      pose proof (Hmin1 r2 Hw2 Hh2). pose proof (Hmin2 r1 Hw1 Hh1). unfold len in *. lia.
+  Qed.
+
+  Theorem input_unchanged data total s :
+    flips_ok flip data total -> Valid (total - 1) s ->
+    exists v, flip s data = Ok v /\
+      (try1 flip P s data = Ok (true, v) /\ P v = true \/
+       try1 flip P s data = Ok (false, data) /\ P v = false).
+  Proof. intros [Hf _] Hv. eapply try1_restores; eauto. Qed.
+End Property.
+
+Theorem partition_exact amount cf : 1 <= cf <= amount ->
+  let ps := pieces amount cf in
+  length ps = Z.to_nat cf /\
+  chain 0 amount ps /\
+  Forall (fun se => 0 <= fst se /\ fst se < snd se /\ snd se <= amount) ps /\
+  ForallOrdPairs (fun x y : Z * Z => snd x <= fst y) ps /\
+  (forall id, 0 <= id < amount ->
+     exists se, In se ps /\ fst se <= id < snd se /\
+                forall se', In se' ps -> fst se' <= id < snd se' -> se' = se).
+Proof.
+  intros H ps. pose proof (pieces_chain amount cf H) as Hc. fold ps in Hc.
+  split; [apply pieces_length|]. split; [exact Hc|].
+  split; [apply (chain_bounds _ _ _ Hc)|]. split; [apply (chain_ordered _ _ _ Hc)|].
+  intros id Hid. destruct (chain_cover _ _ _ id Hc Hid) as (se & Hin & Hse).
+  exists se. repeat split; try tauto. intros se' Hin' Hse'. eapply chain_unique; eauto.
+Qed.
+
+(** the slices run() builds are always of that kind *)
+Theorem cfactor_ok gomax maxconc amount : 1 <= gomax -> 1 <= amount ->
+  1 <= cfactor gomax maxconc amount <= amount /\
+  cfactor gomax maxconc amount <= gomax /\
+  (0 < maxconc -> cfactor gomax maxconc amount <= maxconc).
+Proof.
+  intros Hg Ha. pose proof (cfactor_bounds gomax maxconc amount Hg ltac:(lia)).
+  split; [lia|]. unfold cfactor, MIN_ITER.
+  destruct (amount / 10000 <? gomax) eqn:E1; destruct (amount / 10000 <? 1) eqn:E2;
+    destruct ((0 <? maxconc) && (maxconc <? _)) eqn:E3; lia.
+Qed.
+
+(** * 9. The relation is never empty (so none of the theorems above is vacuous) *)
+
+Section Exists.
+  Context {A : Type}.
+  Variable flip : list Z -> list A -> outcome (list A).
+  Variable P : list A -> bool.
+  Variable ifail : Z -> Z -> bool.
+  Variables (gomax maxconc : Z).
+
+  (** the schedule in which nobody is interrupted *)
+  Definition run_all (sp : @wspec) : @wrun :=
+    if fst sp then ([], false) else (fst (snd sp), is_some (snd (snd sp))).
+
+  Lemma in_combine_map {X Y} (g : X -> Y) : forall l x, In x l -> In (x, g x) (combine l (map g l)).
+  Proof.
+    induction l; intros x H; cbn in *; [contradiction|].
+    destruct H as [->|H]; auto.
+  Qed.
+
+  Lemma round_exists (specs : list (@wspec)) : exists runs res, round_rel specs runs res.
+  Proof.
+    set (runs := map run_all specs).
+    assert (HF : forall b, Forall2 (worker_ok b) specs runs).
+    { intro b. subst runs. induction specs as [|sp t IH]; cbn [map]; constructor; auto.
+      destruct sp as [failed [full hit]]. unfold run_all. cbn [fst snd].
+      destruct failed; cbn [worker_ok]; [auto|].
+      destruct hit as [r|]; cbn [is_some].
+      - split; [reflexivity|discriminate].
+      - destruct b; [|auto]. exists []. split; [symmetry; apply app_nil_r|congruence]. }
+    exists runs. unfold round_rel.
+    destruct (any_fail specs) eqn:Ef; [exists (Err 4); auto|].
+    destruct (any_pub runs) eqn:Ep; [|exists (Ok None); auto].
+    unfold any_pub in Ep. apply existsb_exists in Ep. destruct Ep as (run & Hin & Hp).
+    subst runs. apply in_map_iff in Hin. destruct Hin as (sp & <- & Hsp).
+    unfold run_all in Hp. destruct sp as [failed [full hit]]. cbn [fst snd] in Hp.
+    destruct failed; [discriminate|]. destruct hit as [r|]; [|discriminate].
+    exists (Ok (Some r)). split; [apply HF|].
+    exists (false, (full, Some r)), (run_all (false, (full, Some r))), r.
+    split; [apply in_combine_map; exact Hsp|]. auto.
+  Qed.
+
+  Lemma dist_exists data total : forall n d, exists tr res,
+    dist_rel flip P ifail gomax maxconc data total n d tr res.
+  Proof.
+    induction n as [|n IH]; intro d; cbn [dist_rel].
+    - eauto.
+    - destruct (total <? d); [eauto|].
+      destruct (MAX_INT64 <=? amount_of total (Z.to_nat d)); [eauto|].
+      destruct (round_specs flip P ifail gomax maxconc data total d) as [specs|c| |]; eauto.
+      destruct (round_exists specs) as (runs & rres & Hr).
+      destruct rres as [[r|]|c| |]; try (exists [map fst runs]; eexists; exists runs; eexists; split; [exact Hr|]; cbn; auto; fail).
+      destruct (IH (d + 1)) as (tr & res & Hd).
+      exists (map fst runs :: tr), res, runs, (Ok None). split; [exact Hr|]. eauto.
+  Qed.
+
+  Theorem outcome_exists data isz wmin wmax :
+    exists res, bf_outcome flip P ifail gomax maxconc data isz wmin wmax res.
+  Proof.
+    unfold bf_outcome, bf_run.
+    destruct (wmax <? wmin); [eauto|].
+    destruct (wmin =? 0).
+    - destruct (ifail 0 0); [eauto|]. destruct (P data); [eauto|].
+      destruct (dist_exists data (total_bits data isz)
+                  (Z.to_nat (Z.min wmax (total_bits data isz) - 1 + 1)) 1) as (tr & res & H).
+      exists res, ([[[]]] :: tr), tr. auto.
+    - destruct (dist_exists data (total_bits data isz)
+                  (Z.to_nat (Z.min wmax (total_bits data isz) - wmin + 1)) wmin) as (tr & res & H).
+      eauto.
+  Qed.
+End Exists.
